@@ -4,7 +4,7 @@
   deviation tags and the states, one line per request.
 
   Scores: `ninf` | `pinf` | `nan` | `nz` (-0.0) | decimal order key (`0` is +0.0).  Members/keys: hex.  Entries `member:score`,
-  lists joined by `,`, `.` = empty.  `cfg <fixedRange> <fixedZadd> <fixedZincr>` selects the model variant that
+  lists joined by `,`, `.` = empty.  `cfg <fixedRange> <fixedZadd> <fixedZincr> <fixedOpt> <fixedBounds> <fixedPop>` selects the model variant that
   corresponds to the tree under test (lib/c04.py reads it off the Rust source).
 -/
 import FerrousSpec.Drv.Util
@@ -16,6 +16,9 @@ structure St where
   fixedRange : Bool := false
   fixedZadd : Bool := false
   fixedZincr : Bool := false
+  fixedOpt : Bool := false
+  fixedBounds : Bool := false
+  fixedPop : Bool := false
   sl : Code.SkipList := Code.empty
   spec : Spec.ZSet := []
   keys : List (Bytes × Code.SkipList) := []
@@ -97,6 +100,13 @@ def parseSpecEnts (s : String) : Option Spec.ZSet :=
       | some mb, some (.num v) => some (v, mb)
       | _, _ => none
     | _ => none
+
+/-- the optional argument after the bounds of a range command: absent, WITHSCORES, or something else -/
+def parseOpt (s : String) : Option (Option Bool) :=
+  if s == "none" then some none
+  else if s == "ws" then some (some true)
+  else if s == "other" then some (some false)
+  else none
 
 def parseNats (s : String) : Option (List Nat) :=
   if s == "." then some [] else (s.splitOn ",").mapM String.toNat?
@@ -227,6 +237,32 @@ def zsStep (st : St) (op : String) (k : Bytes) (args : List String) : St × Stri
       | some (e, rest) => (rest, showEnt (lift e))
     let st' := setSpec k z' (setKey k r.1 st)
     (st', s!"C={showOptEnt r.2} S={sr} D=-" ++ tail k st')
+  | "zaddmany", [hs, ps] =>
+    match parseNats hs, parseSpecEnts ps with      -- pairs `member:score` with numeric scores
+    | some hs, some vs =>
+      let r := Code.zaddMany hs vs ck 0
+      let z' := Spec.zaddAll vs z
+      let st' := setSpec k z' (setKey k r.1 st)
+      (st', s!"C={r.2} S={z'.length - z.length} D=-" ++ tail k st')
+    | _, _ => (st, "bad-op")
+  | "zremmany", [ms] =>
+    match parseHexList ms with
+    | some ms =>
+      let r := Code.zremMany ms ck 0
+      let z' := Spec.zremAll ms z
+      let st' := setSpec k z' (setKey k r.1 st)
+      (st', s!"C={r.2} S={z.length - z'.length} D=-" ++ tail k st')
+    | none => (st, "bad-op")
+  | "popn", [w, n] =>
+    match n.toNat? with
+    | some n =>
+      if w != "min" && w != "max" then (st, "bad-op") else
+      let mx := w == "max"
+      let r := Code.zpopMany mx n ck []
+      let sp := Spec.zpopN mx n z
+      let st' := setSpec k sp.1 (setKey k r.1 st)
+      (st', s!"C={showEnts r.2} S={showSpec sp.2} D=-" ++ tail k st')
+    | none => (st, "bad-op")
   | "setspec", [es] =>
     match parseSpecEnts es with
     | some z' => (setSpec k z' st, "ok")
@@ -264,19 +300,67 @@ def cmdStep (st : St) (op : String) (k : Bytes) (args : List String) : St × Str
     | some n =>
       if w != "min" && w != "max" then (st, "bad-op") else
       let mx := w == "max"
-      let r := Code.zpopLoop st.fixedRange mx n ck []
+      let r := Code.zpopMany mx n ck []          -- handle_zpopmin/max: one `storage.zpop(key, count, min)`
       let sp := Spec.zpopN mx n z
       let st' := setSpec k sp.1 (setKey k r.1 st)
-      (st', s!"C={showEnts r.2} S={showSpec sp.2} D=-" ++ tail k st')
+      let cr := if r.2.isEmpty && Code.zpopEmptyIsNull st.fixedPop then "null" else showEnts r.2
+      (st', s!"C={cr} S={showSpec sp.2} D=-" ++ tail k st')
     | none => (st, "bad-op")
+  | "zrem", [ms] =>
+    match parseHexList ms with
+    | some ms =>
+      let r := Code.zremMany ms ck 0
+      let z' := Spec.zremAll ms z
+      let st' := setSpec k z' (setKey k r.1 st)
+      (st', s!"C={r.2} S={z.length - z'.length} D=-" ++ tail k st')
+    | none => (st, "bad-op")
+  -- range commands with their optional trailing argument: `opt` = none | ws (WITHSCORES) | other
+  | "zrange", [a, b, r, opt] =>
+    match a.toInt?, b.toInt?, parseOpt opt with
+    | some a, some b, some o =>
+      if r != "0" && r != "1" then (st, "bad-op") else
+      let rev := r == "1"
+      let d := if !st.fixedRange && Code.zrangeDev rev (Code.zcard ck) a b then (if rev then "zrevrange-clamp" else "zrange-clamp") else "-"
+      let cr := match Code.rangeOption st.fixedOpt o with
+        | none => "err"
+        | some w => b01 w ++ "/" ++ showEnts (Code.zrange st.fixedRange a b rev ck)
+      let sr := match Spec.rangeOption o with
+        | none => "err"
+        | some w => b01 w ++ "/" ++ showSpec (if rev then Spec.zrevrange z a b else Spec.zrange z a b)
+      (st, s!"C={cr} S={sr} D={d}" ++ tail k st)
+    | _, _, _ => (st, "bad-op")
+  | "zrbs", [lo, hi, r, opt] =>
+    match parseScore lo, parseScore hi, parseOpt opt with
+    | some lo, some hi, some o =>
+      if r != "0" && r != "1" then (st, "bad-op") else
+      let rev := r == "1"
+      let cr := match Code.scoreBounds st.fixedBounds lo hi, Code.rangeOption st.fixedOpt o with
+        | some (l, h), some w => b01 w ++ "/" ++ showEnts (Code.zrangebyscore l h rev ck)
+        | _, _ => "err"
+      let sr := match Spec.scoreBounds lo hi, Spec.rangeOption o with
+        | some (l, h), some w => b01 w ++ "/" ++ showSpec (if rev then Spec.zrevrangebyscore z l h else Spec.zrangebyscore z l h)
+        | _, _ => "err"
+      (st, s!"C={cr} S={sr} D=-" ++ tail k st)
+    | _, _, _ => (st, "bad-op")
+  | "zcount", [lo, hi] =>
+    match parseScore lo, parseScore hi with
+    | some lo, some hi =>
+      let cr := match Code.scoreBounds st.fixedBounds lo hi with
+        | some (l, h) => toString (Code.zcount l h ck)
+        | none => "err"
+      let sr := match Spec.scoreBounds lo hi with
+        | some (l, h) => toString (Spec.zcount z l h)
+        | none => "err"
+      (st, s!"C={cr} S={sr} D=-" ++ tail k st)
+    | _, _ => (st, "bad-op")
   | _, _ => (st, "bad-op")
 
 def step (st : St) (ws : List String) : St × String :=
   match ws with
-  | ["cfg", a, b, c] =>
-    let ok := fun (x : String) => x == "0" || x == "1"
-    if ok a && ok b && ok c then
-      ({ st with fixedRange := a == "1", fixedZadd := b == "1", fixedZincr := c == "1" }, "ok")
+  | "cfg" :: bs =>
+    if bs.length == 6 && bs.all (fun x => x == "0" || x == "1") then
+      let g := fun (i : Nat) => bs.getD i "0" == "1"
+      ({ st with fixedRange := g 0, fixedZadd := g 1, fixedZincr := g 2, fixedOpt := g 3, fixedBounds := g 4, fixedPop := g 5 }, "ok")
     else (st, "bad-op")
   | ["reset"] => ({ st with sl := Code.empty, spec := [], keys := [], skeys := [] }, "ok")
   | "sl" :: rest => slStep st rest
